@@ -78,10 +78,11 @@ class Func:
 
     @property
     def is_generator(self):
-        for n in walk_body(self):
-            if isinstance(n, (ast.Yield, ast.YieldFrom)):
-                return True
-        return False
+        g = self.__dict__.get("_is_generator")
+        if g is None:
+            g = any(isinstance(n, (ast.Yield, ast.YieldFrom)) for n in walk_body(self))
+            self.__dict__["_is_generator"] = g
+        return g
 
     @property
     def where(self):
